@@ -1,0 +1,8 @@
+//go:build !verif
+// +build !verif
+
+package storage
+
+// verifPoint marks points where the verification harness (build tag `verif`)
+// may pause or yield. Without the tag it is an empty inlined call.
+func verifPoint(point string, args ...interface{}) {}
